@@ -98,7 +98,7 @@ theorem C03_temp_once (ex : Bool) (c : CmdC) (hc : c.com = .temp) :
       else match sortedRanged (tempMissing c) with
         | some r => some ((entriesOf c).flatMap tempLine ++ (bstr "303 " ++ r ++ bstr ": unknown" ++ crlf) ++ qTerm c.error)
         | none => none) ∧
-    (∀ a v, a.val = some v → tempLine a = bstr "303 " ++ ofChars a.node ++ bstr ": " ++ v ++ crlf) ∧
+    (∀ a v, a.val = some v → tempLine a = bstr "303 " ++ ofChars a.node ++ bstr ": " ++ firstLine v ++ crlf) ∧
     (∀ a, a.val = none → tempLine a = []) ∧
     (tempValued c ++ tempMissing c).Perm ((entriesOf c).map (·.node)) ∧
     (∀ n, ¬ (n ∈ tempValued c ∧ n ∈ tempMissing c)) :=
